@@ -229,6 +229,12 @@ class ContractDB:
                     name = str(k.value)
                 else:
                     name = ast.unparse(k)
+                if isinstance(v, ast.BoolOp) and isinstance(v.op, ast.And) and name != "decreases" and not raw:
+                    # a conjunction is split into one obligation per conjunct (simple conjuncts can then
+                    # be refuted with a model even when a quantified sibling is beyond the solver)
+                    for ci, cj in enumerate(v.values):
+                        out.append((f"{name}#{ci}", self.as_bool(it, it.eval(cj, fr), fr, name)))
+                    continue
                 val = it.eval(v, fr)
                 out.append((name, val if raw and name == "decreases" else self.as_bool(it, val, fr, name)))
         elif isinstance(e, (ast.List, ast.Tuple)):
